@@ -3,4 +3,664 @@ import MelModel.ApplyTx
 import MelModel.Lemmas.Batch
 import MelModel.SupplyDefs
 namespace Mel
+
+/-! ### sums over lists -/
+
+theorem sum_filter_map {α : Type} (p : α → Prop) [DecidablePred p] (f : α → Nat) (l : List α) :
+    ((l.filter fun x => decide (p x)).map f).sum = (l.map fun x => if p x then f x else 0).sum := by
+  induction l with
+  | nil => rfl
+  | cons a rest ih =>
+    simp only [List.filter_cons, List.map_cons, List.sum_cons]
+    by_cases h : p a
+    · simp [h, ih]
+    · simp [h, ih]
+
+theorem sum_map_le_combine {α : Type} (f g h i : α → Nat) (l : List α)
+    (hl : ∀ x ∈ l, f x + g x ≤ h x + i x) :
+    (l.map f).sum + (l.map g).sum ≤ (l.map h).sum + (l.map i).sum := by
+  induction l with
+  | nil => simp
+  | cons a rest ih =>
+    have h1 := hl a List.mem_cons_self
+    have h2 := ih fun x hx => hl x (List.mem_cons_of_mem _ hx)
+    simp only [List.map_cons, List.sum_cons]
+    omega
+
+theorem sum_map_const_zero {α : Type} (l : List α) : (l.map fun _ => 0).sum = 0 := by
+  induction l with
+  | nil => rfl
+  | cons a rest ih => simpa using ih
+
+theorem sum_map_eq_zero {α : Type} (f : α → Nat) (l : List α) (h : ∀ x ∈ l, f x = 0) : (l.map f).sum = 0 := by
+  induction l with
+  | nil => rfl
+  | cons a rest ih =>
+    simp only [List.map_cons, List.sum_cons]
+    rw [h a List.mem_cons_self, ih fun x hx => h x (List.mem_cons_of_mem _ hx)]
+
+/-! ### weighted sums over association lists -/
+namespace AList
+variable {κ ν : Type} [DecidableEq κ]
+
+/-- sum of a weight over the values of a map -/
+def wsum (w : ν → Nat) (m : AList κ ν) : Nat := (m.map fun e => w e.2).sum
+
+omit [DecidableEq κ] in
+theorem wsum_nil (w : ν → Nat) : wsum w ([] : AList κ ν) = 0 := rfl
+
+omit [DecidableEq κ] in
+theorem wsum_cons (w : ν → Nat) (k : κ) (v : ν) (m : AList κ ν) :
+    wsum w ((k, v) :: m) = w v + wsum w m := by
+  simp [wsum]
+
+theorem wsum_del_le (w : ν → Nat) (m : AList κ ν) (k : κ) : wsum w (del m k) ≤ wsum w m := by
+  induction m with
+  | nil => exact Nat.le_refl _
+  | cons e rest ih =>
+    obtain ⟨k', v⟩ := e
+    rw [del_cons]
+    split
+    · rw [wsum_cons]; omega
+    · rw [wsum_cons, wsum_cons]; omega
+
+/-- deleting a present key lowers the sum by (at least) its weight -/
+theorem wsum_del_add_le (w : ν → Nat) {m : AList κ ν} {k : κ} {old : ν} (h : get m k = some old) :
+    wsum w (del m k) + w old ≤ wsum w m := by
+  induction m with
+  | nil => simp [get] at h
+  | cons e rest ih =>
+    obtain ⟨k', v⟩ := e
+    rw [get_cons] at h
+    rw [del_cons]
+    by_cases hk : k' = k
+    · simp only [hk, if_true, Option.some.injEq] at h ⊢
+      subst h
+      have := wsum_del_le w rest k
+      rw [wsum_cons]; omega
+    · simp only [hk, if_false] at h ⊢
+      have := ih h
+      rw [wsum_cons, wsum_cons]; omega
+
+theorem wsum_set_le (w : ν → Nat) (m : AList κ ν) (k : κ) (v : ν) :
+    wsum w (set m k v) ≤ wsum w m + w v := by
+  have := wsum_del_le w m k
+  simp only [set, wsum_cons]; omega
+
+theorem wsum_extend_le (w : ν → Nat) (es : List (κ × ν)) :
+    ∀ m : AList κ ν, wsum w (extend m es) ≤ wsum w m + wsum w es := by
+  induction es with
+  | nil => intro m; exact Nat.le_refl _
+  | cons e rest ih =>
+    intro m
+    obtain ⟨k, v⟩ := e
+    have h1 : extend m ((k, v) :: rest) = extend (set m k v) rest := rfl
+    have h2 := ih (set m k v)
+    have h3 := wsum_set_le w m k v
+    rw [h1, wsum_cons]; omega
+
+theorem get_some_mem_keys {m : AList κ ν} {k : κ} {v : ν} (h : get m k = some v) : k ∈ keys m :=
+  mem_keys_of_mem (mem_of_get_eq_some h)
+
+/-- a map with unique keys each of whose entries occurs in one of two other maps weighs at most their sum -/
+theorem wsum_le_of_get (w : ν → Nat) (m₁ : AList κ ν) :
+    ∀ (m₂ m₃ : AList κ ν), (keys m₁).Nodup →
+      (∀ k v, get m₁ k = some v → get m₂ k = some v ∨ get m₃ k = some v) →
+      wsum w m₁ ≤ wsum w m₂ + wsum w m₃ := by
+  induction m₁ with
+  | nil => intro m₂ m₃ _ _; simp [wsum_nil]
+  | cons e rest ih =>
+    obtain ⟨k, v⟩ := e
+    intro m₂ m₃ hn hg
+    simp only [keys, List.map_cons, List.nodup_cons] at hn
+    have hrest : ∀ k' v', get rest k' = some v' → k' ≠ k ∧ get ((k, v) :: rest) k' = some v' := by
+      intro k' v' h
+      have hne : k' ≠ k := by
+        intro he; subst he; exact hn.1 (get_some_mem_keys h)
+      have hne' : ¬ k = k' := fun he => hne he.symm
+      exact ⟨hne, by rw [get_cons]; simp [hne', h]⟩
+    rw [wsum_cons]
+    rcases hg k v (by simp [get_cons]) with h2 | h3
+    · have := ih (del m₂ k) m₃ hn.2 (by
+        intro k' v' h
+        obtain ⟨hne, h'⟩ := hrest k' v' h
+        rcases hg k' v' h' with h | h
+        · exact Or.inl (by rw [get_del_ne m₂ hne]; exact h)
+        · exact Or.inr h)
+      have := wsum_del_add_le w h2
+      omega
+    · have := ih m₂ (del m₃ k) hn.2 (by
+        intro k' v' h
+        obtain ⟨hne, h'⟩ := hrest k' v' h
+        rcases hg k' v' h' with h | h
+        · exact Or.inl h
+        · exact Or.inr (by rw [get_del_ne m₃ hne]; exact h))
+      have := wsum_del_add_le w h3
+      omega
+
+end AList
+
+/-! ### coin totals -/
+
+/-- the value a coin contributes to denomination `d` -/
+def cval (d : Denom) (c : CoinDataHeight) : Nat := if c.coinData.denom = d then c.coinData.value else 0
+
+/-- total of denomination `d` over a coin association list -/
+def ctot (d : Denom) (m : AList CoinID CoinDataHeight) : Nat := AList.wsum (cval d) m
+
+theorem coinsTotal_eq (m : CoinMap) (d : Denom) : coinsTotal m d = ctot d m.coins := by
+  simp only [coinsTotal, ctot, AList.wsum, cval]
+  exact sum_filter_map (fun e : CoinID × CoinDataHeight => e.2.coinData.denom = d)
+    (fun e => e.2.coinData.value) m.coins
+
+theorem CoinMap.coins_insertCoin (m : CoinMap) (id : CoinID) (c : CoinDataHeight) (t : Bool) :
+    (m.insertCoin id c t).coins = m.coins.set id c := by
+  simp only [CoinMap.insertCoin]; split <;> rfl
+
+/-! ### insertion phase -/
+
+theorem insStep_keys_nodup (rel : Relevant) (t : Bool) (coins : CoinMap) (id : CoinID)
+    (h : (AList.keys coins.coins).Nodup) : (AList.keys (insStep rel t coins id).coins).Nodup := by
+  simp only [insStep]
+  split
+  · rw [CoinMap.coins_insertCoin]; exact AList.keys_nodup_set _ _ h
+  · exact h
+
+theorem insFold_keys_nodup (rel : Relevant) (t : Bool) (L : List CoinID) :
+    ∀ coins : CoinMap, (AList.keys coins.coins).Nodup →
+      (AList.keys (L.foldl (insStep rel t) coins).coins).Nodup := by
+  induction L with
+  | nil => intro coins h; exact h
+  | cons id rest ih =>
+    intro coins h
+    rw [List.foldl_cons]
+    exact ih _ (insStep_keys_nodup rel t coins id h)
+
+/-- the value an output contributes to denomination `d` once created -/
+def outVal (tx : Tx) (d : Denom) (o : CoinData) : Nat := if createdDenom tx o = d then o.value else 0
+
+/-- everything a transaction's outputs could create in denomination `d` -/
+def outAll (tx : Tx) (d : Denom) : Nat := (tx.outputs.map (outVal tx d)).sum
+
+/-- the per-output function of `outputCoinsFromTx` -/
+def mkOut (tx : Tx) (height : Nat) (e : CoinData × Nat) : Option (CoinID × CoinDataHeight) :=
+  let cd : CoinData := if e.1.denom = .newCustom then { e.1 with denom := .custom tx.hash } else e.1
+  if cd.covhash ≠ coinDestroy then some ({ txhash := tx.hash, index := e.2 % 256 }, { coinData := cd, height := height })
+  else none
+
+theorem outputCoinsFromTx_eq (tx : Tx) (height : Nat) :
+    outputCoinsFromTx tx height = tx.outputs.zipIdx.filterMap (mkOut tx height) := rfl
+
+theorem mkOut_val {tx : Tx} {height : Nat} {e : CoinData × Nat} {x : CoinID × CoinDataHeight} (d : Denom)
+    (h : mkOut tx height e = some x) : cval d x.2 = outVal tx d e.1 := by
+  obtain ⟨o, i⟩ := e
+  simp only [mkOut] at h
+  by_cases hne : (if o.denom = .newCustom then ({ o with denom := .custom tx.hash } : CoinData) else o).covhash
+      ≠ coinDestroy
+  · rw [if_pos hne] at h
+    simp only [Option.some.injEq] at h
+    subst h
+    simp only [cval, outVal, createdDenom]
+    by_cases hn : o.denom = .newCustom <;> simp [hn]
+  · rw [if_neg hne] at h
+    cases h
+
+theorem wsum_outputCoins_aux (tx : Tx) (height : Nat) (d : Denom) (l : List (CoinData × Nat)) :
+    AList.wsum (cval d) (l.filterMap (mkOut tx height)) ≤ (l.map fun e => outVal tx d e.1).sum := by
+  induction l with
+  | nil => simp [AList.wsum]
+  | cons e rest ih =>
+    rw [List.filterMap_cons]
+    simp only [List.map_cons, List.sum_cons]
+    cases hm : mkOut tx height e with
+    | none => simp only; omega
+    | some x =>
+      simp only
+      obtain ⟨k, c⟩ := x
+      rw [AList.wsum_cons]
+      have := mkOut_val d hm
+      simp only at this
+      omega
+
+theorem map_fst_zipIdx_sum {α : Type} (f : α → Nat) (l : List α) :
+    ∀ n, ((l.zipIdx n).map fun e => f e.1).sum = (l.map f).sum := by
+  induction l with
+  | nil => intro n; rfl
+  | cons a rest ih => intro n; simp [List.zipIdx_cons, ih]
+
+theorem wsum_outputCoinsFromTx (tx : Tx) (height : Nat) (d : Denom) :
+    AList.wsum (cval d) (outputCoinsFromTx tx height) ≤ outAll tx d := by
+  have := wsum_outputCoins_aux tx height d tx.outputs.zipIdx
+  rw [map_fst_zipIdx_sum (outVal tx d)] at this
+  rw [outputCoinsFromTx_eq]
+  exact this
+
+theorem ctot_createdFold (height : Nat) (d : Denom) (txs : List Tx) :
+    ∀ acc : Relevant, ctot d (txs.foldl (fun acc tx => acc.extend (outputCoinsFromTx tx height)) acc) ≤
+      ctot d acc + (txs.map fun tx => outAll tx d).sum := by
+  induction txs with
+  | nil => intro acc; simp
+  | cons tx rest ih =>
+    intro acc
+    rw [List.foldl_cons]
+    have h1 := ih (acc.extend (outputCoinsFromTx tx height))
+    have h2 := AList.wsum_extend_le (cval d) (outputCoinsFromTx tx height) acc
+    have h3 := wsum_outputCoinsFromTx tx height d
+    simp only [ctot, List.map_cons, List.sum_cons] at h1 h2 ⊢
+    omega
+
+theorem ctot_createdOf (height : Nat) (d : Denom) (txs : List Tx) :
+    ctot d (createdOf height txs) ≤ (txs.map fun tx => outAll tx d).sum := by
+  have := ctot_createdFold height d txs []
+  simpa [createdOf, ctot, AList.wsum_nil] using this
+
+/-- the coin total after the insertion phase -/
+theorem ctot_insFold {s : State} {txs : List Tx} {rel : Relevant} (t : Bool)
+    (h : loadRelevantCoins s txs = .ok rel) (hk : (AList.keys s.coins.coins).Nodup) (d : Denom) :
+    ctot d ((outputIds txs).foldl (insStep rel t) s.coins).coins ≤
+      ctot d s.coins.coins + (txs.map fun tx => outAll tx d).sum := by
+  obtain ⟨-, -, -, r1, r2⟩ := loadRelevantCoins_ok h
+  have hn := insFold_keys_nodup rel t (outputIds txs) s.coins hk
+  have key := AList.wsum_le_of_get (cval d) _ s.coins.coins (createdOf s.height txs) hn (by
+    intro k v hg
+    have hg' : ((outputIds txs).foldl (insStep rel t) s.coins).getCoin k = some v := hg
+    rw [getCoin_insFold] at hg'
+    split at hg'
+    · cases hr : rel.get k with
+      | none => rw [hr] at hg'; exact Or.inl hg'
+      | some c =>
+        rw [hr] at hg'
+        simp only [Option.some.injEq] at hg'; subst hg'
+        cases hc : (createdOf s.height txs).get k with
+        | none => exact Or.inl (r2 k c hc hr)
+        | some c' =>
+          have := r1 k c' hc
+          rw [hr] at this
+          exact Or.inr this.symm
+    · exact Or.inl hg')
+  have := ctot_createdOf s.height d txs
+  simp only [ctot] at key this ⊢
+  omega
+
+/-! ### removal phase -/
+
+/-- the value input `id` contributes to denomination `d` (according to the relevant-coin table) -/
+def inVal (rel : Relevant) (d : Denom) (id : CoinID) : Nat :=
+  match rel.get id with
+  | some c => cval d c
+  | none => 0
+
+def inSum (rel : Relevant) (d : Denom) (ids : List CoinID) : Nat := (ids.map (inVal rel d)).sum
+
+/-- every still-unspent input that is relevant is present in the coin map, with the relevant content -/
+def RInv (rel : Relevant) (m : CoinMap) (ids : List CoinID) : Prop :=
+  ∀ k ∈ ids, ∀ c, rel.get k = some c → m.getCoin k = some c
+
+theorem removeFold_tot (rel : Relevant) (d : Denom) (t : Bool) (ids : List CoinID) :
+    ∀ (later : List CoinID) (m m' : CoinMap),
+      Outcome.foldlM' (fun (c : CoinMap) id => c.removeCoin id t) m ids = .ok m' →
+      (ids ++ later).Nodup → RInv rel m (ids ++ later) →
+      ctot d m'.coins + inSum rel d ids ≤ ctot d m.coins ∧ RInv rel m' later := by
+  induction ids with
+  | nil =>
+    intro later m m' h _ hi
+    rw [Outcome.foldlM'_nil_ok] at h; subst h
+    exact ⟨by simp [inSum], hi⟩
+  | cons id rest ih =>
+    intro later m m' h hn hi
+    rw [Outcome.foldlM'_cons_ok] at h
+    obtain ⟨m1, h1, h2⟩ := h
+    rw [List.cons_append, List.nodup_cons] at hn
+    have hi1 : RInv rel m1 (rest ++ later) := by
+      intro k hk c hc
+      have hne : k ≠ id := by intro he; subst he; exact hn.1 hk
+      rw [CoinMap.getCoin_removeCoin h1 k, if_neg hne]
+      exact hi k (List.mem_cons_of_mem _ hk) c hc
+    obtain ⟨i1, i2⟩ := ih later m1 m' h2 hn.2 hi1
+    refine ⟨?_, i2⟩
+    have hstep : ctot d m1.coins + inVal rel d id ≤ ctot d m.coins := by
+      rw [CoinMap.coins_removeCoin h1]
+      simp only [inVal, ctot]
+      cases hr : rel.get id with
+      | none => exact AList.wsum_del_le _ _ _
+      | some c =>
+        have : m.coins.get id = some c := hi id (by simp) c hr
+        exact AList.wsum_del_add_le (cval d) this
+    simp only [inSum, List.map_cons, List.sum_cons] at i1 ⊢
+    omega
+
+theorem faucetStep_tot {env : Env} {st st1 : State} {tx : Tx} (rel : Relevant) (d : Denom)
+    (h : (if tx.kind = .faucet then handleFaucetTx env st tx else .ok st) = .ok st1) :
+    ctot d st1.coins.coins ≤ ctot d st.coins.coins ∧
+    (∀ ids, RInv rel st.coins ids → RInv rel st1.coins ids) ∧
+    st1.pools = st.pools ∧ st1.feePool = st.feePool ∧ st1.tips = st.tips := by
+  by_cases hk : tx.kind = .faucet
+  · rw [if_pos hk] at h
+    simp only [handleFaucetTx] at h
+    split at h
+    · cases h
+    · split at h
+      · cases h
+      · rename_i hfresh
+        split at h
+        · cases h
+          refine ⟨?_, ?_, rfl, rfl, rfl⟩
+          · simp only [CoinMap.coins_insertCoin, ctot]
+            have := AList.wsum_set_le (cval d) st.coins.coins { txhash := env.fdp tx.hash, index := 0 }
+              { coinData := { denom := .mel, value := 0, additionalData := [], covhash := zeroHash }, height := 0 }
+            have hz : cval d { coinData := { denom := .mel, value := 0, additionalData := [], covhash := zeroHash },
+                               height := 0 } = 0 := by simp [cval]
+            omega
+          · intro ids hi k hk c hc
+            have hpres := hi k hk c hc
+            have hne : k ≠ { txhash := env.fdp tx.hash, index := 0 } := by
+              intro he; subst he
+              rw [hpres] at hfresh; simp at hfresh
+            simp only [CoinMap.getCoin_insertCoin, if_neg hne]
+            exact hpres
+        · cases h
+          exact ⟨Nat.le_refl _, fun _ hi => hi, rfl, rfl, rfl⟩
+  · rw [if_neg hk] at h
+    cases h
+    exact ⟨Nat.le_refl _, fun _ hi => hi, rfl, rfl, rfl⟩
+
+theorem satAdd128_le (a b : Nat) : satAdd128 a b ≤ a + b := by
+  simp only [satAdd128]; omega
+
+theorem nextStep_tot {env : Env} {t : Bool} {st st' : State} {tx : Tx} (rel : Relevant) (d : Denom)
+    (later : List CoinID) (h : nextStep env t st tx = .ok st') (hn : (tx.inputs ++ later).Nodup)
+    (hi : RInv rel st.coins (tx.inputs ++ later)) :
+    ctot d st'.coins.coins + inSum rel d tx.inputs ≤ ctot d st.coins.coins ∧ RInv rel st'.coins later ∧
+    st'.pools = st.pools ∧ st'.feePool + st'.tips ≤ st.feePool + st.tips + tx.fee := by
+  simp only [nextStep, Outcome.bind_eq_ok] at h
+  obtain ⟨st1, h1, coins2, h2, minFee, -, h4⟩ := h
+  obtain ⟨f1, f2, f3, f4, f5⟩ := faucetStep_tot rel d h1
+  obtain ⟨r1, r2⟩ := removeFold_tot rel d t tx.inputs later st1.coins coins2 h2 hn (f2 _ hi)
+  split at h4
+  · cases h4
+  · rename_i hfee
+    cases h4
+    refine ⟨by simp only; omega, r2, f3, ?_⟩
+    have a1 := satAdd128_le st1.tips (tx.fee - minFee)
+    have a2 := satAdd128_le st1.feePool minFee
+    have hfee' : minFee ≤ tx.fee := Nat.le_of_not_lt hfee
+    simp only
+    omega
+
+theorem nextFold_tot (env : Env) (t : Bool) (rel : Relevant) (d : Denom) (txs : List Tx) :
+    ∀ (st st' : State), Outcome.foldlM' (nextStep env t) st txs = .ok st' →
+      (txs.flatMap (·.inputs)).Nodup → RInv rel st.coins (txs.flatMap (·.inputs)) →
+      ctot d st'.coins.coins + (txs.map fun tx => inSum rel d tx.inputs).sum ≤ ctot d st.coins.coins ∧
+      st'.pools = st.pools ∧
+      st'.feePool + st'.tips ≤ st.feePool + st.tips + (txs.map (·.fee)).sum := by
+  induction txs with
+  | nil =>
+    intro st st' h _ _
+    rw [Outcome.foldlM'_nil_ok] at h; subst h
+    simp
+  | cons tx rest ih =>
+    intro st st' h hn hi
+    rw [Outcome.foldlM'_cons_ok] at h
+    obtain ⟨st1, h1, h2⟩ := h
+    rw [List.flatMap_cons] at hn hi
+    obtain ⟨a1, a2, a3, a4⟩ := nextStep_tot rel d (rest.flatMap (·.inputs)) h1 hn hi
+    obtain ⟨b1, b2, b3⟩ := ih st1 st' h2 (List.nodup_append.mp hn).2.1 a2
+    refine ⟨?_, b2.trans a3, ?_⟩
+    · simp only [List.map_cons, List.sum_cons]; omega
+    · simp only [List.map_cons, List.sum_cons]; omega
+
+/-- after the insertion phase every relevant coin is present with its relevant content -/
+theorem RInv_insFold {s : State} {txs : List Tx} {rel : Relevant} (t : Bool)
+    (h : loadRelevantCoins s txs = .ok rel) (ids : List CoinID) :
+    RInv rel ((outputIds txs).foldl (insStep rel t) s.coins) ids := by
+  obtain ⟨-, -, -, r1, r2⟩ := loadRelevantCoins_ok h
+  intro k _ c hc
+  rw [getCoin_insFold]
+  cases hcr : (createdOf s.height txs).get k with
+  | some c' => rw [if_pos (createdOf_key_mem_outputIds hcr), hc]
+  | none =>
+    have := r2 k c hcr hc
+    split
+    · rw [hc]
+    · exact this
+
+/-! ### per-transaction balance -/
+
+theorem getD_addDenom (m : AList Denom Nat) (d : Denom) (v : Nat) (d' : Denom) :
+    ((addDenom m d v).get d').getD 0 = (m.get d').getD 0 + (if d = d' then v else 0) := by
+  by_cases h : d' = d
+  · subst h; simp [addDenom, AList.get_set_self]
+  · have h' : ¬ d = d' := fun he => h he.symm
+    simp [addDenom, AList.get_set_ne _ _ h, h']
+
+/-- the outputs of raw denomination `d` -/
+def rawOut (tx : Tx) (d : Denom) : Nat := (tx.outputs.map fun o => if o.denom = d then o.value else 0).sum
+
+theorem getD_outFold (l : List CoinData) (d : Denom) :
+    ∀ m : AList Denom Nat, ((l.foldl (fun acc o => addDenom acc o.denom o.value) m).get d).getD 0 =
+      (m.get d).getD 0 + (l.map fun o => if o.denom = d then o.value else 0).sum := by
+  induction l with
+  | nil => intro m; simp
+  | cons o rest ih =>
+    intro m
+    rw [List.foldl_cons, ih, getD_addDenom]
+    simp only [List.map_cons, List.sum_cons]
+    omega
+
+theorem getD_totalOutputs (tx : Tx) (d : Denom) :
+    (tx.totalOutputs.get d).getD 0 = rawOut tx d + (if d = .mel then tx.fee else 0) := by
+  simp only [Tx.totalOutputs, getD_addDenom, getD_outFold, rawOut]
+  have : (AList.get ([] : AList Denom Nat) d).getD 0 = 0 := rfl
+  rw [this]
+  by_cases h : d = .mel
+  · subst h; simp
+  · have h' : ¬ Denom.mel = d := fun he => h he.symm
+    simp [h, h']
+
+/-- one step of the input loop of `checkTxValidity` -/
+def inStep (env : Env) (s : State) (lastHeader : Header) (tx : Tx) (rel : Relevant)
+    (newStakes : AList Hash StakeDoc) (acc : AList Denom Nat) (e : CoinID × Nat) : Outcome (AList Denom Nat) :=
+  let coinId := e.1
+  if (newStakes.contains coinId.txhash || (s.stakes.getStake coinId.txhash).isSome) && !legacyStakeLock s
+  then .reject .coinLocked
+  else match rel.get coinId with
+    | none => .reject .nonexistentCoin
+    | some coin =>
+      (validateTxScripts env e.2 coinId tx coin lastHeader).bind fun _ =>
+        let total := (acc.get coin.coinData.denom).getD 0 + coin.coinData.value
+        if total > U128_MAX then .crash "applytx.rs: in_coins sum overflow"
+        else .ok (acc.set coin.coinData.denom total)
+
+theorem checkTxValidity_eq (env : Env) (s : State) (lastHeader : Header) (tx : Tx) (rel : Relevant)
+    (newStakes : AList Hash StakeDoc) :
+    checkTxValidity env s lastHeader tx rel newStakes =
+      (Outcome.foldlM' (inStep env s lastHeader tx rel newStakes) [] tx.inputs.zipIdx).bind fun inCoins =>
+        checkBalanced tx.kind inCoins tx.totalOutputs := rfl
+
+theorem inStep_ok {env : Env} {s : State} {lastHeader : Header} {tx : Tx} {rel : Relevant}
+    {newStakes : AList Hash StakeDoc} {acc acc' : AList Denom Nat} {e : CoinID × Nat}
+    (h : inStep env s lastHeader tx rel newStakes acc e = .ok acc') :
+    ∃ coin, rel.get e.1 = some coin ∧ acc' = addDenom acc coin.coinData.denom coin.coinData.value := by
+  simp only [inStep] at h
+  split at h
+  · cases h
+  · split at h
+    · cases h
+    · rename_i coin hr
+      rw [Outcome.bind_eq_ok] at h
+      obtain ⟨_, -, h⟩ := h
+      split at h
+      · cases h
+      · cases h
+        exact ⟨coin, hr, rfl⟩
+
+theorem getD_inFold {env : Env} {s : State} {lastHeader : Header} {tx : Tx} {rel : Relevant}
+    {newStakes : AList Hash StakeDoc} (d : Denom) (l : List (CoinID × Nat)) :
+    ∀ acc r : AList Denom Nat, Outcome.foldlM' (inStep env s lastHeader tx rel newStakes) acc l = .ok r →
+      (r.get d).getD 0 = (acc.get d).getD 0 + (l.map fun e => inVal rel d e.1).sum := by
+  induction l with
+  | nil =>
+    intro acc r h
+    rw [Outcome.foldlM'_nil_ok] at h; subst h; simp
+  | cons e rest ih =>
+    intro acc r h
+    rw [Outcome.foldlM'_cons_ok] at h
+    obtain ⟨acc1, h1, h2⟩ := h
+    obtain ⟨coin, hr, rfl⟩ := inStep_ok h1
+    rw [ih _ r h2, getD_addDenom]
+    simp only [List.map_cons, List.sum_cons, inVal, hr, cval]
+    omega
+
+theorem checkBalanced_ok {kind : TxKind} {inCoins outCoins : AList Denom Nat} (hk : kind ≠ .faucet)
+    (h : checkBalanced kind inCoins outCoins = .ok ()) (d : Denom) (v : Nat) (hv : (d, v) ∈ outCoins)
+    (hd : d ≠ .newCustom) (he : ¬ (kind = .doscMint ∧ d = .erg)) : inCoins.get d = some v := by
+  simp only [checkBalanced, if_neg hk] at h
+  rw [Outcome.forM'_eq_ok] at h
+  have := h (d, v) hv
+  simp only at this
+  split at this
+  · rename_i hc
+    simp only [Bool.or_eq_true, decide_eq_true_eq, Bool.and_eq_true] at hc
+    rcases hc with hc | hc
+    · exact absurd hc hd
+    · exact absurd hc he
+  · split at this
+    · cases this
+    · rename_i iv hiv
+      split at this
+      · cases this
+      · rename_i hne
+        rw [hiv]
+        have : v = iv := Classical.not_not.mp hne
+        rw [this]
+
+/-- what one transaction may create out of nothing in denomination `d` (same body as `txIssuance`) -/
+def issue (tx : Tx) (d : Denom) : Nat :=
+  if tx.kind = .faucet then
+    ((tx.outputs.filter fun o => createdDenom tx o = d).map (·.value)).sum + (if d = .mel then tx.fee else 0)
+  else
+    ((tx.outputs.filter fun o => o.denom = .newCustom ∧ d = .custom tx.hash).map (·.value)).sum +
+    (if tx.kind = .doscMint ∧ d = .erg then ((tx.outputs.filter fun o => o.denom = .erg).map (·.value)).sum else 0)
+
+theorem sum_map_le_add {α : Type} (f g h : α → Nat) (l : List α) (hl : ∀ x ∈ l, f x ≤ g x + h x) :
+    (l.map f).sum ≤ (l.map g).sum + (l.map h).sum := by
+  have := sum_map_le_combine f (fun _ => 0) g h l (by intro x hx; have := hl x hx; omega)
+  rw [sum_map_const_zero] at this
+  omega
+
+theorem outAll_le (tx : Tx) (d : Denom) (hd : d ≠ .newCustom) :
+    outAll tx d ≤
+      ((tx.outputs.filter fun o => o.denom = .newCustom ∧ d = .custom tx.hash).map (·.value)).sum + rawOut tx d := by
+  rw [sum_filter_map (fun o : CoinData => o.denom = .newCustom ∧ d = .custom tx.hash) (·.value)]
+  apply sum_map_le_add
+  intro o _
+  simp only [outVal]
+  by_cases hn : o.denom = .newCustom
+  · have hcd : createdDenom tx o = .custom tx.hash := by simp [createdDenom, hn]
+    rw [hcd]
+    by_cases h2 : Denom.custom tx.hash = d
+    · subst h2; simp [hn]
+    · rw [if_neg h2]; exact Nat.zero_le _
+  · have hcd : createdDenom tx o = o.denom := by simp [createdDenom, hn]
+    rw [hcd]; exact Nat.le_add_left _ _
+
+theorem outAll_newCustom (tx : Tx) : outAll tx .newCustom = 0 := by
+  have : outVal tx .newCustom = fun _ => 0 := by
+    funext o
+    simp only [outVal, createdDenom]
+    by_cases hn : o.denom = .newCustom <;> simp [hn]
+  rw [outAll, this]
+  exact sum_map_const_zero _
+
+/-- a validated transaction creates at most what it consumes plus its declared issuance -/
+theorem tx_balance {env : Env} {s : State} {lastHeader : Header} {tx : Tx} {rel : Relevant}
+    {newStakes : AList Hash StakeDoc} (h : checkTxValidity env s lastHeader tx rel newStakes = .ok ())
+    (d : Denom) :
+    outAll tx d + (if d = .mel then tx.fee else 0) ≤ inSum rel d tx.inputs + issue tx d := by
+  rw [checkTxValidity_eq, Outcome.bind_eq_ok] at h
+  obtain ⟨inCoins, hin, hbal⟩ := h
+  by_cases hk : tx.kind = .faucet
+  · simp only [issue, if_pos hk]
+    rw [sum_filter_map (fun o : CoinData => createdDenom tx o = d) (·.value)]
+    have e : outAll tx d = (tx.outputs.map fun o => if createdDenom tx o = d then o.value else 0).sum := rfl
+    rw [e]
+    omega
+  · simp only [issue, if_neg hk]
+    by_cases hd : d = .newCustom
+    · subst hd
+      rw [outAll_newCustom]; simp
+    · have h1 := outAll_le tx d hd
+      have hsum := getD_inFold (env := env) (s := s) (lastHeader := lastHeader) (tx := tx) (rel := rel)
+        (newStakes := newStakes) d tx.inputs.zipIdx [] inCoins hin
+      rw [map_fst_zipIdx_sum (inVal rel d)] at hsum
+      have hnil : (AList.get ([] : AList Denom Nat) d).getD 0 = 0 := rfl
+      rw [hnil] at hsum
+      by_cases he : tx.kind = .doscMint ∧ d = .erg
+      · rw [if_pos he]
+        obtain ⟨-, rfl⟩ := he
+        rw [sum_filter_map (fun o : CoinData => o.denom = .erg) (·.value)]
+        simp only [rawOut] at h1
+        simp only [show ¬ Denom.erg = Denom.mel by decide, if_false]
+        omega
+      · rw [if_neg he]
+        have htot := getD_totalOutputs tx d
+        cases hg : tx.totalOutputs.get d with
+        | none =>
+          rw [hg] at htot
+          simp only [Option.getD_none] at htot
+          omega
+        | some v =>
+          rw [hg] at htot
+          simp only [Option.getD_some] at htot
+          have := checkBalanced_ok hk hbal d v (AList.mem_of_get_eq_some hg) hd he
+          rw [this] at hsum
+          simp only [Option.getD_some] at hsum
+          simp only [inSum]
+          omega
+
+/-! ### the whole batch -/
+
+theorem applyBatch_ok_full {env : Env} {s s' : State} {txs : List Tx} {fb : Header}
+    (h : applyBatch env s txs fb = .ok s') :
+    ∃ rel newStakes next, loadRelevantCoins s txs = .ok rel ∧
+      (∀ tx ∈ txs, checkTxValidity env s (lastHeaderOf s fb) tx rel newStakes = .ok ()) ∧
+      createNextState env s txs rel s.tip906 = .ok next ∧ s'.coins = next.coins ∧ s'.pools = next.pools ∧
+      s'.feePool = next.feePool ∧ s'.tips = next.tips := by
+  simp only [applyBatch, Outcome.bind_eq_ok] at h
+  obtain ⟨rel, h1, newStakes, h2, u, h3, newSpeed, -, next, h5, h6⟩ := h
+  cases u
+  rw [Outcome.forM'_eq_ok] at h3
+  cases h6
+  exact ⟨rel, newStakes, next, h1, h3, h5, rfl, rfl, rfl, rfl⟩
+
+theorem sum_map_feeIf (txs : List Tx) (d : Denom) :
+    (txs.map fun tx => if d = .mel then tx.fee else 0).sum = if d = .mel then (txs.map (·.fee)).sum else 0 := by
+  by_cases h : d = .mel
+  · simp [h]
+  · simp only [h, if_false]; exact sum_map_const_zero _
+
+/-- conservation across a batch, in terms of `issue` -/
+theorem supply_applyBatch (env : Env) (s s' : State) (txs : List Tx) (fb : Header)
+    (h : applyBatch env s txs fb = .ok s') (hk : (s.coins.coins.map (·.1)).Nodup) (d : Denom) :
+    supply s' d ≤ supply s d + (txs.map fun tx => issue tx d).sum := by
+  obtain ⟨rel, newStakes, next, h1, h3, h4, e1, e2, e3, e4⟩ := applyBatch_ok_full h
+  obtain ⟨-, hnd, -, -, -⟩ := loadRelevantCoins_ok h1
+  rw [createNextState_eq] at h4
+  have hins := ctot_insFold s.tip906 h1 hk d
+  have hinv := RInv_insFold s.tip906 h1 (txs.flatMap (·.inputs))
+  obtain ⟨n1, n2, n3⟩ := nextFold_tot env s.tip906 rel d txs _ next h4 hnd hinv
+  have hbal := sum_map_le_combine (fun tx => outAll tx d) (fun tx => if d = .mel then tx.fee else 0)
+    (fun tx => inSum rel d tx.inputs) (fun tx => issue tx d) txs
+    (fun tx htx => tx_balance (h3 tx htx) d)
+  rw [sum_map_feeIf] at hbal
+  simp only [supply, coinsTotal_eq, e1, e2, e3, e4]
+  simp only at n1 n2 n3
+  rw [n2]
+  by_cases hm : d = .mel
+  · simp only [hm, if_true] at hbal ⊢
+    subst hm
+    omega
+  · simp only [hm, if_false] at hbal ⊢
+    omega
+
 end Mel
